@@ -1281,6 +1281,8 @@ impl BufferParser for Parser {
                         } else {
                             1
                         };
+                        // after `height` scrolls the whole region is blank: more iterations change nothing
+                        let num = num.min(buf.terminal_state.get_height());
                         (0..num).for_each(|_| buf.scroll_up(current_layer));
                         return Ok(CallbackAction::Update);
                     }
@@ -1292,6 +1294,8 @@ impl BufferParser for Parser {
                         } else {
                             1
                         };
+                        // after `height` scrolls the whole region is blank: more iterations change nothing
+                        let num = num.min(buf.terminal_state.get_height());
                         (0..num).for_each(|_| buf.scroll_down(current_layer));
                         return Ok(CallbackAction::Update);
                     }
